@@ -86,20 +86,90 @@ func ownRule(c *Ctx, rule string) int {
 			}
 			n++
 			ob := c.Ob(rule, "spine-store/"+a.FuncName(fn)+"#"+itoa(ordinalOf(a.eff[fn], e)), e.Pos)
-			v, t := e.Value&oROOTS, e.Target&oROOTS
-			switch {
-			case v == 0:
-				ob.Undecided("spine of unknown origin stored into a container")
-			case v&^(t|oFRESH) != 0:
-				ob.Fail("OWN: a spine with origin %s (may share its backing array with another container) is installed as the storage of %s", e.Value&oROOTS, t)
-			case t&oFRESH != 0 && t&^oFRESH == 0 && v != oFRESH:
-				ob.Fail("OWN: storage of a new container has origin %s, not exclusively fresh", v)
+			st, msg := ownJudge(a, e.Fn, e.Value&oROOTS, e.Target&oROOTS, 0)
+			switch st {
+			case 0:
+				ob.Ok("%s", msg)
+			case 1:
+				ob.Fail("%s", msg)
 			default:
-				ob.Ok("OWN: spine origin %s into container %s", v, t)
+				ob.Undecided("%s", msg)
 			}
 		}
 	}
 	return n
+}
+
+// ownJudge decides the ownership obligation "spine of origin v becomes the storage of a container of origin t" in function fn.
+// When the only offending origins are parameters of an unexported top-level function or method (a private constructor helper such as
+// newListWith(spine)), the obligation is transferred to every call site of that helper (origins substituted into caller terms), to a
+// depth of three; a helper whose value escapes other than by a call is not accepted.
+func ownJudge(a *E3, fn *ssa.Function, v, t O, depth int) (int, string) {
+	if v == 0 {
+		return 2, "spine of unknown origin stored into a container"
+	}
+	viol := v &^ (t | oFRESH)
+	if t&oFRESH != 0 && t&^oFRESH == 0 {
+		viol = v &^ oFRESH
+	}
+	if viol == 0 {
+		return 0, "OWN: spine origin " + v.String() + " into container " + t.String()
+	}
+	fail := "OWN: a spine with origin " + v.String() + " (may share its backing array with another container) is installed as the storage of " + t.String()
+	if t&oFRESH != 0 && t&^oFRESH == 0 && v&^(t|oFRESH) == 0 {
+		fail = "OWN: storage of a new container has origin " + v.String() + ", not exclusively fresh"
+	}
+	params := oP1 | oP2 | oP3 // never the receiver: its spine installed elsewhere is shared by construction
+	if viol&^params != 0 || fn == nil || fn.Parent() != nil || fn.Object() == nil || fn.Object().Exported() || depth >= 3 {
+		return 1, fail
+	}
+	sites := 0
+	for _, caller := range a.fns {
+		var all []*ssa.Function
+		all = append(all, caller)
+		for i := 0; i < len(all); i++ {
+			all = append(all, all[i].AnonFuncs...)
+		}
+		for _, f := range all {
+			for _, blk := range f.Blocks {
+				for _, in := range blk.Instrs {
+					ci, isCall := in.(ssa.CallInstruction)
+					hit := false
+					if isCall {
+						for _, cal := range a.Callees(ci.Common()) {
+							if cal == fn {
+								hit = true
+							}
+						}
+					}
+					// any other use of the helper as a value lets it escape
+					for _, op := range in.Operands(nil) {
+						if *op == ssa.Value(fn) && !(isCall && ci.Common().Value == ssa.Value(fn)) {
+							return 1, fail + " (and the helper " + fn.Name() + " is used as a value at " + a.prog.Fset.Position(in.Pos()).String() + ")"
+						}
+					}
+					if !hit {
+						continue
+					}
+					sites++
+					args := slotArgs(fn, callArgs(ci.Common()))
+					st, msg := ownJudge(a, rootOf(f), a.subst(v, args)&oROOTS, a.subst(t, args)&oROOTS, depth+1)
+					if st != 0 {
+						pos := a.prog.Fset.Position(in.Pos())
+						return st, msg + " [via the call of " + fn.Name() + " at " + shortPos(pos.Filename) + ":" + itoa(pos.Line) + "]"
+					}
+				}
+			}
+		}
+	}
+	return 0, "OWN: spine origin " + v.String() + " into container " + t.String() + " in private helper " + fn.Name() + "; discharged at its " + itoa(sites) + " call site(s), where the spine is fresh or the container's own"
+}
+
+func shortPos(f string) string {
+	if i := strings.LastIndex(f, "/"); i >= 0 {
+		return f[i+1:]
+	}
+	return f
 }
 
 func ordinalOf(es []*Effect, e *Effect) int {
